@@ -245,6 +245,7 @@ class GroupProject(Contract):
 
 class MembersPosition(Contract):
     name = f"{GPOP}.members_position"
+    loop_heads = {0: 'for k in range(nb_persons)'}
     prop = ("C10",)
     top_level = True
     descr = ("the position of a person is the number of earlier persons of the same group (so positions enumerate each group's "
@@ -333,6 +334,18 @@ class AnySite(Contract):
         return []
 
 
+def _pairing_operands(ctx, mask, values):
+    """operands of `target[mask] = source[permutation][mask2]`: (SIG, INV) of the sorting permutation and the enumerations of the
+    two masks; None when the assignment does not have that structure"""
+    en2 = getattr(values, "mask_enum", None)
+    src = getattr(values, "masked_from", (None, None))[0]
+    idx = getattr(src, "fancy_from", (None, None))[1]
+    perm = getattr(idx, "perm", None)
+    if en2 is None or perm is None:
+        return None
+    return perm[0], perm[1], nparr.mask_enum(ctx, mask), en2
+
+
 class ValueFromPerson(Contract):
     name = f"{GPOP}.value_from_person"
     prop = ("C10",)
@@ -362,21 +375,17 @@ class ValueFromPerson(Contract):
         return d
 
     @staticmethod
-    def _pairing_lemma(ctx, I, env):
-        """ghost statement before `result[entity_filter] = array[members_map][role_filter[members_map]]`: the groups with a
-        holder, in increasing order, and the groups of the holders taken in the order of the sorting permutation are the same
+    def ghost_masked_assign(ctx, I, target, mask, values):
+        """ghost statement before the masked assignment `result[<groups with a holder>] = <values of the sorted persons>[<holders,
+        in sorted order>]`, bound to the assignment by the structure of its operands (not by its text): the groups with a holder,
+        in increasing order, and the groups of the holders taken in the order of the sorting permutation are the same
         enumeration (lemma schema proved in this module's lemma library)"""
-        import ast
         w = ctx.ghost["gw"]
         ANYF, WIT = ctx.ghost["any"]
-        ev = lambda txt: I.eval(ctx, env, ast.parse(txt, mode="eval").body)
-        try:
-            mm = ev("members_map")
-            SIG, INV = mm.perm
-            enf = nparr.mask_enum(ctx, ev("entity_filter"))
-            en2 = nparr.mask_enum(ctx, ev("role_filter[members_map]"))
-        except Exception:
+        p = _pairing_operands(ctx, mask, values)
+        if p is None:
             return          # the code no longer has the shape this ghost statement speaks about: no lemma, the proof must do without
+        SIG, INV, enf, en2 = p
         f = lambda j: w.EID(SIG(en2.SEL(j)))
         gf = lambda j: enf.SEL(j)
         j, j2 = z3.Int(ctx.fresh_name("j_l")), z3.Int(ctx.fresh_name("j2_l"))
@@ -392,7 +401,6 @@ class ValueFromPerson(Contract):
                           z3.ForAll([j], z3.Implies(z3.And(j >= 0, j < enf.cnt), z3.And(wb(j) >= 0, wb(j) < en2.cnt, f(wb(j)) == gf(j)))))],
                         z3.And(en2.cnt == enf.cnt, z3.ForAll([j], z3.Implies(z3.And(j >= 0, j < enf.cnt), f(j) == gf(j)), patterns=[enf.SEL(j)])))
 
-    ghost_before = {("GroupPopulation.value_from_person", "result[entity_filter] ="): _pairing_lemma.__func__}
 
     def post(self, I, ctx, a, out, old):
         w, D = a["__w"], a["__D"]
@@ -499,20 +507,16 @@ class ValueNthPerson(Contract):
         return d
 
     @staticmethod
-    def _pairing_lemma(ctx, I, env):
-        """ghost statement before the masked assignment: groups with more than n members, in increasing order, and the groups of
-        the persons at position n taken in the order of the sorting permutation are the same enumeration"""
-        import ast
+    def ghost_masked_assign(ctx, I, target, mask, values):
+        """ghost statement before the masked assignment, bound to it by the structure of its operands: groups with more than n
+        members, in increasing order, and the groups of the persons at position n taken in the order of the sorting permutation
+        are the same enumeration"""
         w, n = ctx.ghost["gw"], ctx.ghost["n"]
         c = counting(ctx)
-        ev = lambda txt: I.eval(ctx, env, ast.parse(txt, mode="eval").body)
-        try:
-            mm = ev("members_map")
-            SIG, INV = mm.perm
-            enf = nparr.mask_enum(ctx, ev("nb_persons_per_entity > n"))
-            en2 = nparr.mask_enum(ctx, ev("positions[members_map] == n"))
-        except Exception:
+        p = _pairing_operands(ctx, mask, values)
+        if p is None:
             return
+        SIG, INV, enf, en2 = p
         f = lambda j: w.EID(SIG(en2.SEL(j)))
         gf = lambda j: enf.SEL(j)
         j, j2 = z3.Int(ctx.fresh_name("j_l")), z3.Int(ctx.fresh_name("j2_l"))
@@ -528,7 +532,6 @@ class ValueNthPerson(Contract):
                           z3.ForAll([j], z3.Implies(z3.And(j >= 0, j < enf.cnt), z3.And(wb(j) >= 0, wb(j) < en2.cnt, f(wb(j)) == gf(j)))))],
                         z3.And(en2.cnt == enf.cnt, z3.ForAll([j], z3.Implies(z3.And(j >= 0, j < enf.cnt), f(j) == gf(j)), patterns=[enf.SEL(j)])))
 
-    ghost_before = {("GroupPopulation.value_nth_person", "result[nb_persons_per_entity > n] ="): _pairing_lemma.__func__}
 
     def post(self, I, ctx, a, out, old):
         w, D, n = a["__w"], a["__D"], a["__n"]
@@ -546,7 +549,7 @@ class ValueNthPerson(Contract):
     def probes(self, case):
         return [{"callee": self.name, "script": NATIVE, "op": "value_nth_person", "n": n, "count": 3, "eid": eid,
                  "values": [10.0, 20.0, 30.0, 40.0, 50.0, 60.0][:len(eid)], "inrole": [False] * len(eid)}
-                for eid in ([1, 0, 0, 2, 0, 1], [2, 1, 0], [0, 0, 1], [1, 1, 0, 0], [1, 2, 0], [2, 0, 1, 0, 1, 2], [1, 2, 0, 3]) for n in (0, 1, 2)]
+                for eid in ([1, 0, 0, 2, 0, 1], [2, 1, 0], [0, 0, 1], [1, 1, 0, 0], [1, 2, 0], [2, 0, 1, 0, 1, 2], [1, 2, 0, 2]) for n in (0, 1, 2)]
 
     def judge_native(self, I, case, call, nat):
         return judge(nat)
@@ -650,6 +653,7 @@ class ValueFromFirstPerson(Contract):
 
 class GroupReduce(Contract):
     name = f"{GPOP}.reduce"
+    loop_heads = {0: 'for p in range(biggest_entity_size)'}
     prop = ("C10",)
     top_level = True
     cases = ("max", "min", "max-role", "min-role", "all", "all-role")
